@@ -140,8 +140,17 @@ func symAddrKey(a ssa.Value, fr *symFrame, depth int) string {
 			// a local struct variable (or composite literal): name it by the variable
 			return al.Comment + "." + fieldVarOfAddr(x).Name()
 		}
+		switch x.X.(type) {
+		case *ssa.FieldAddr, *ssa.IndexAddr:
+			// a field of an embedded struct value: address arithmetic, no load in between
+			return symAddrKey(x.X, fr, depth+1) + "." + fieldVarOfAddr(x).Name()
+		}
 		return symKeyF(x.X, fr, depth+1) + "." + fieldVarOfAddr(x).Name()
 	case *ssa.IndexAddr:
+		switch x.X.(type) {
+		case *ssa.FieldAddr, *ssa.IndexAddr:
+			return symAddrKey(x.X, fr, depth+1) + "[" + symKeyF(x.Index, fr, depth+1) + "]"
+		}
 		return symKeyF(x.X, fr, depth+1) + "[" + symKeyF(x.Index, fr, depth+1) + "]"
 	case *ssa.Global:
 		return x.Pkg.Pkg.Name() + "." + x.Name()
@@ -351,6 +360,25 @@ func symExecF(fn *ssa.Function, env map[string]int64, fr *symFrame, depth int) s
 					}
 				}
 				res.Effects = append(res.Effects, "store "+symAddrKey(x.Addr, fr, 0)+" = "+symKeyF(x.Val, fr, 0))
+			case *ssa.Convert:
+				// (a conversion's key is that of its operand, so the value is
+				// computed from the operand, never looked up)
+				if val, ok := get(x.X); ok {
+					// integer conversions truncate / sign-extend to the destination type
+					if b, isB := x.Type().Underlying().(*types.Basic); isB && b.Info()&types.IsInteger != 0 {
+						if w, signed, okW := basicWidth(b); okW && w < 64 {
+							val &= (1 << uint(w)) - 1
+							if signed && val&(1<<uint(w-1)) != 0 {
+								val -= 1 << uint(w)
+							}
+						}
+					}
+					fr.vals[x] = val
+				}
+			case *ssa.ChangeType:
+				if val, ok := get(x.X); ok {
+					fr.vals[x] = val
+				}
 			case *ssa.MapUpdate:
 				res.Effects = append(res.Effects, "mapupdate "+symKeyF(x.Map, fr, 0)+"["+symKeyF(x.Key, fr, 0)+"] = "+symKeyF(x.Value, fr, 0))
 			case *ssa.If:
